@@ -1,8 +1,9 @@
 ------------------------------ MODULE MinerFees ------------------------------
 (***************************************************************************)
-(* Block fees and rewards of the miner contract (minersc/fees.go payFees,  *)
-(* models.go splitByShareRatio, fees.go payShardersAndDelegates) at the    *)
-(* level of providers: which miner / sharder stake pool is paid how much.  *)
+(* Block fees and rewards of the miner contract (minersc/fees.go payFees   *)
+(* and sumFee, models.go splitByShareRatio, fees.go                        *)
+(* payShardersAndDelegates): what a block's transactions bring in, and, at *)
+(* the level of providers, which miner / sharder stake pool is paid how much.  *)
 (* The split of one provider's amount over its delegates is C10's          *)
 (* (StakePool.tla).  "Once per round" is where the code has it: block      *)
 (* validation (miner/protocol_block.go ValidateTransactions) rejects a     *)
@@ -13,26 +14,56 @@ EXTENDS MinerFeesOps
 
 CONSTANTS Miner, Sharder,      \* registered, live, sufficiently staked providers
           MaxFee,              \* fee totals 0..MaxFee
+          MaxTxns,             \* fee-carrying transactions per block
+          MinFee,              \* minimum fee of a transaction whose function is not fee-exempt
           Reward,              \* block reward
           Ratios,              \* set of <<num, den>> share ratios
           NSh,                 \* sharders rewarded per block
-          MaxBlocks
+          MaxBlocks,
+          SkipExempt           \* FALSE = the code: sumFee adds the fee of EVERY transaction of the block.
+                               \* TRUE = a design in which payFees leaves the fee-exempt functions out: TLC
+                               \* then exhibits the loss (MC_MinerFees_skipexempt_demo.cfg violates C22_Exact)
 
 VARIABLES mrew, srew,          \* accumulated rewards of the stake pools
           ratio,               \* the share ratio of this behaviour
-          blk,                 \* the block being built: [round, gen, fees, npay]
+          blk,                 \* the block being built: [round, gen, fees, sumfee, npay]
           verdict,             \* verdict of block validation on the last sealed block: "none" | "valid" | "invalid"
           last                 \* the last payFees call
 vars == <<mrew, srew, ratio, blk, verdict, last>>
 
-NoBlock == [round |-> 0, gen |-> "none", fees |-> 0, npay |-> 0]
+-----------------------------------------------------------------------------
+(* The fee-carrying transactions of a block.  A transaction is [kind, fee]:  *)
+(*   send / data   plain transfers and data transactions                     *)
+(*   scok / scfail a contract call that succeeds / fails (chargeable error:  *)
+(*                 its state changes are dropped, its fee is still charged)  *)
+(*   exempt        a call of a function on the chain's fee-exempt list       *)
+(*                 (contributeMpk, shareSignsOrShares, wait, pour)           *)
+(* Exemption waives the MINIMUM fee only (transaction.ValidateFee): an       *)
+(* exempt call may offer any fee, 0 included, and a fee that is offered is   *)
+(* moved to the miner contract's address by Chain.updateState exactly like   *)
+(* the fee of any other transaction, whatever the outcome of the call.       *)
+TxKind == {"send", "data", "scok", "scfail", "exempt"}
+Tx == [kind : TxKind, fee : 0..MaxFee]
+IsExempt(tx) == tx.kind = "exempt"
+Admissible(txs) == \A i \in DOMAIN txs : IsExempt(txs[i]) \/ txs[i].fee >= MinFee
+RECURSIVE SumFrom(_, _, _)
+SumFrom(txs, i, skipExempt) == IF i > Len(txs) THEN 0
+                               ELSE (IF skipExempt /\ IsExempt(txs[i]) THEN 0 ELSE txs[i].fee) + SumFrom(txs, i + 1, skipExempt)
+\* what Chain.updateState collects on the miner contract's address while the block executes (chain/state.go)
+Charged(txs) == SumFrom(txs, 1, FALSE)
+\* what payFees distributes (minersc/fees.go sumFee)
+SumFee(txs) == SumFrom(txs, 1, SkipExempt)
+Blocks == {txs \in UNION {[1..n -> Tx] : n \in 0..MaxTxns} : Admissible(txs) /\ Charged(txs) <= MaxFee}
+
+NoBlock == [round |-> 0, gen |-> "none", fees |-> 0, sumfee |-> 0, npay |-> 0]
 Init == /\ mrew = [m \in Miner |-> 0] /\ srew = [s \in Sharder |-> 0]
         /\ ratio \in Ratios /\ blk = NoBlock /\ verdict = "none" /\ last = [kind |-> "none"]
 
-\* a block of the next round by some generator with some fee-paying transactions
-NewBlock(g, f) ==
+\* a block of the next round by some generator with some fee-carrying transactions; only the two totals
+\* matter to what follows, so the state keeps them and not the list
+NewBlock(g, txs) ==
   /\ blk.round < MaxBlocks
-  /\ blk' = [round |-> blk.round + 1, gen |-> g, fees |-> f, npay |-> 0]
+  /\ blk' = [round |-> blk.round + 1, gen |-> g, fees |-> Charged(txs), sumfee |-> SumFee(txs), npay |-> 0]
   /\ verdict' = "none" /\ last' = [kind |-> "none"]
   /\ UNCHANGED <<mrew, srew, ratio>>
 
@@ -44,7 +75,7 @@ Splits(x, T) == {ShareOut(x, T, X) : X \in {Y \in SUBSET T : Cardinality(Y) = x 
 PayFees(caller, r) ==
   /\ blk.round > 0 /\ verdict = "none"                     \* the block is still being built
   /\ IF caller = blk.gen /\ r = blk.round                  \* fees.go:271-282
-       THEN LET mf == Floor(blk.fees, ratio)  sf == blk.fees - mf
+       THEN LET mf == Floor(blk.sumfee, ratio)  sf == blk.sumfee - mf
                 mr == Floor(Reward, ratio)    sr == Reward - mr
                 k == IF NSh < Cardinality(Sharder) THEN NSh ELSE Cardinality(Sharder)
             IN \E T \in {U \in SUBSET Sharder : Cardinality(U) = k} :         \* the RNG's choice
@@ -68,7 +99,7 @@ ValidateBlock ==
   /\ last' = [kind |-> "none"]
   /\ UNCHANGED <<mrew, srew, ratio, blk>>
 
-Next == \/ \E g \in Miner, f \in 0..MaxFee : NewBlock(g, f)
+Next == \/ \E g \in Miner, txs \in Blocks : NewBlock(g, txs)
         \/ \E c \in Miner, r \in 0..MaxBlocks : PayFees(c, r)
         \/ ValidateBlock
 Spec == Init /\ [][Next]_vars
